@@ -4,7 +4,7 @@ import common, diffrun, gen, stdflow
 from common import hx, rnd_bytes
 
 
-def gen_cases(rng, tier, corr, stats):
+def gen_cases(rng, tier, corr, stats, driver):
     # every carry-chain length 0..16, incl. the wrap at 2^128, plus random nonces
     for j in range(17):
         for _ in range(2 if tier == "quick" else 20):
@@ -16,29 +16,76 @@ def gen_cases(rng, tier, corr, stats):
         corr.one("NINC %s" % hx(rnd_bytes(rng, 16))); stats["ops"]["increment-random"] += 1
     for c in [0, 1, 255, 256, 2 ** 32 - 1, 2 ** 32, 2 ** 63, 2 ** 64 - 1] + [rng.getrandbits(64) for _ in range(10)]:
         corr.one("NSETCTR %d" % c); stats["ops"]["set_counter"] += 1
-    # sessions: 1..6 packets on one incremental object, encrypt / valid decrypt / forged decrypt; the nonce field is read after each packet,
-    # and each packet is also computed one-shot under the predicted nonce
+    # sessions: 1..6 packets on one incremental object, every packet an encryption, a VALID decryption (ciphertext made by the
+    # extracted model under the predicted nonce N+i, so that the accept path of *_decrypt_finalize runs) or a forged one (one tag
+    # bit / one body bit of a model-made ciphertext flipped, a random tag, or a genuine ciphertext made under the neighbouring
+    # nonce N+i-1 / N+i+1); the nonce field is read back after EVERY packet whatever its kind and verdict, and every packet is
+    # also computed one-shot (AE ENC / AE DEC) under the predicted nonce.  `expect` holds what the read-backs and verdicts must be
+    # by the property (N+i+1 big-endian; 0 for the genuine packets, -1 for the forged ones): checked on the model's outputs in
+    # run() (the implementation is compared with the model line by line)
+    plans = []
     for _ in range(60 if tier == "quick" else 800):
         v = rng.choice(["128", "128a", "80pq"])
         klen, rate = gen.AEAD_VARIANTS[v]
         k = rnd_bytes(rng, klen)
         j = rng.randrange(0, 17)
         n = rnd_bytes(rng, 16 - j) + b"\xff" * j
-        ses = ["AI 1 %s INIT %s %s" % (v, hx(n), hx(k)), "AI 1 NONCE"]
         cur = int.from_bytes(n, "big")
+        pk = []
         for _p in range(rng.randrange(1, 7)):
             ad, pt = rnd_bytes(rng, rng.choice([0, 3, 17])), rnd_bytes(rng, rng.choice([0, 1, rate, 2 * rate + 3]))
-            ses.append("AI 1 START %s" % hx(ad))
-            enc = rng.random() < 0.6
-            parts = gen.split_data(pt, gen.partition(rng, len(pt), rate))
-            for c in parts:
-                ses.append("AI 1 %s %s" % ("ENCB" if enc else "DECB", hx(c)))
-            ses.append("AI 1 ENCF" if enc else "AI 1 DECF %s" % hx(rnd_bytes(rng, 16)))
-            ses.append("AI 1 NONCE")
-            if enc:   # the same packet one-shot under the nonce the session should have used
-                ses.append("AE %s ENC %s %s %s %s" % (v, hx(k), hx(cur.to_bytes(16, "big")), hx(ad), hx(pt)))
+            kind = rng.choice(["enc", "enc", "enc", "dec-valid", "dec-valid", "dec-valid", "dec-tagbit", "dec-bodybit", "dec-randtag", "dec-neighbour"])
+            made_under = cur
+            if kind == "dec-neighbour":
+                made_under = (cur + rng.choice([-1, 1])) % (1 << 128)
+            pk.append((kind, cur, made_under, ad, pt))
             cur = (cur + 1) % (1 << 128)
-            stats["ops"]["session-packet-" + ("enc" if enc else "dec")] += 1
+        plans.append((v, rate, k, n, pk))
+    need = [(v, k, mu, ad, pt) for (v, rate, k, n, pk) in plans for (kind, cur, mu, ad, pt) in pk if kind != "enc"]
+    lines = ["AE %s ENC %s %s %s %s" % (v, hx(k), hx(mu.to_bytes(16, "big")), hx(ad), hx(pt)) for (v, k, mu, ad, pt) in need]
+    cts = []
+    if lines:
+        rc, out, err = common.run_parallel(driver, lines)
+        if rc != 0 or len(out) != len(lines):
+            raise common.Infra("model driver failed while making ciphertexts: " + (err or "")[-1000:])
+        cts = [bytes.fromhex(o.split()[0]) if o.split()[0] != "-" else b"" for o in out]
+    it = iter(cts)
+    expect = stats.setdefault("expect", [])
+    for (v, rate, k, n, pk) in plans:
+        base = len(corr.lines)
+        ses = ["AI 1 %s INIT %s %s" % (v, hx(n), hx(k)), "AI 1 NONCE"]
+        expect.append((base + 1, hx(n), "nonce-after-init"))
+        for (kind, cur, mu, ad, pt) in pk:
+            ses.append("AI 1 START %s" % hx(ad))
+            nxt = ((cur + 1) % (1 << 128)).to_bytes(16, "big")
+            if kind == "enc":
+                for c in gen.split_data(pt, gen.partition(rng, len(pt), rate)):
+                    ses.append("AI 1 ENCB %s" % hx(c))
+                ses.append("AI 1 ENCF")
+                ses.append("AI 1 NONCE"); expect.append((base + len(ses) - 1, hx(nxt), "nonce-after-enc"))
+                # the same packet one-shot under the nonce the session should have used
+                ses.append("AE %s ENC %s %s %s %s" % (v, hx(k), hx(cur.to_bytes(16, "big")), hx(ad), hx(pt)))
+            else:
+                ct = next(it)
+                body, tag = bytearray(ct[:-16]), bytearray(ct[-16:])
+                if kind == "dec-bodybit" and not body:
+                    kind = "dec-tagbit"
+                if kind == "dec-tagbit":
+                    bit = rng.randrange(128); tag[bit // 8] ^= 0x80 >> (bit % 8)
+                elif kind == "dec-bodybit":
+                    bit = rng.randrange(8 * len(body)); body[bit // 8] ^= 0x80 >> (bit % 8)
+                elif kind == "dec-randtag":
+                    t2 = rnd_bytes(rng, 16)
+                    tag = bytearray(t2 if t2 != bytes(tag) else bytes(x ^ 1 for x in t2))
+                body, tag = bytes(body), bytes(tag)
+                for c in gen.split_data(body, gen.partition(rng, len(body), rate)):
+                    ses.append("AI 1 DECB %s%s" % (hx(c), " I" if rng.random() < 0.25 else ""))
+                ses.append("AI 1 DECF %s" % hx(tag))
+                expect.append((base + len(ses) - 1, "0" if kind == "dec-valid" else "-1", "verdict-" + kind))
+                ses.append("AI 1 NONCE"); expect.append((base + len(ses) - 1, hx(nxt), "nonce-after-" + kind))
+                # decided like the one-shot decryption under the nonce the session should have used
+                ses.append("AE %s DEC %s %s %s %s" % (v, hx(k), hx(cur.to_bytes(16, "big")), hx(ad), hx(body + tag)))
+            stats["ops"]["session-packet-" + kind] += 1
         ses.append("AI 1 FREE")
         corr.session(ses, "AI-session-" + v)
 
@@ -78,9 +125,26 @@ def run(res, tier, seed, replay=None):
         import json
         corr.session(json.load(open(replay))["replay"]["ops"])
     else:
-        gen_cases(rng, tier, corr, stats)
+        gen_cases(rng, tier, corr, stats, driver)
         cpx = cpp_nonce_lines(rng, tier)
         stats["ops"]["cpp-object-histories"] = len(cpx)
+    # what the property demands of the read-backs and verdicts, checked on the proved model's own outputs (python arithmetic N+i+1,
+    # accept for model-made packets, reject for the forged ones); the implementation is then compared with these outputs line by line
+    accepted = rejected = readbacks = 0
+    if stats.get("expect"):
+        rc, om, err = common.run_parallel(driver, corr.lines, corr.sessions)
+        if rc != 0:
+            raise common.Infra("model driver failed: " + (err or "")[-1000:])
+        for (i, want, what) in stats["expect"]:
+            got = om[i].strip()
+            if got != want:
+                # excluded by C14_session_mixed / C02_incremental for the model: a generator or driver fault, not a finding about /repo
+                raise common.Infra("p_c14 generator/driver fault: model line %r returned %s, the property demands %s (%s)" %
+                                   (corr.lines[i][:200], got[:80], want, what))
+            elif what.startswith("verdict-"):
+                accepted += want == "0"; rejected += want == "-1"
+            else:
+                readbacks += 1
     configs = ["default", "c32"] if tier == "quick" else ["default", "c64", "c32", "directxor", "generic"]
     per = []
     ncpx = 0
@@ -105,11 +169,13 @@ def run(res, tier, seed, replay=None):
         "evaluations": sum(p["sessions"] for p in per) + ncpx,
         "distinct_nontrivial": max([p["nontrivial"] for p in per] or [0]) + len(set(cpx)),
         "rule": "ascon_aead_increment_nonce on nonces prefix||FF^j for every j = 0..16 (every carry-chain length incl. the wrap) and random nonces; set_counter edge values; "
-                "incremental sessions of 1..6 packets (encrypt / forged decrypt, chunked) with the nonce field read back after every packet and every encrypted packet "
-                "recomputed one-shot under N+i; C++ object histories containing set_nonce (lengths 0..20) / set_counter with the held nonce compared after every member call",
+                "incremental sessions of 1..6 packets, each an encryption, a genuine decryption (ciphertext made by the extracted model under N+i: accept path) or a forged "
+                "one (tag bit, body bit, random tag, genuine ciphertext under N+i-1 / N+i+1), chunked, some blocks in place, with the nonce field read back after every "
+                "packet (must be N+i+1 whatever the kind and verdict) and every packet recomputed one-shot (AE ENC / AE DEC) under N+i; C++ object histories containing set_nonce (lengths 0..20) / set_counter with the held nonce compared after every member call",
         "samples": corr.lines[:3] + corr.lines[60:63] + cpx[:2],
         "per_config": per,
         "input_distribution": {"ops": dict(stats["ops"])},
+        "session_decrypt_accepted": accepted, "session_decrypt_rejected": rejected, "session_nonce_readbacks": readbacks,
     })
     res.assumptions += ["the C++ object behaviour (nonce +1 after encrypt / successful decrypt, unchanged after a failed one) is theorem C17_packet over the model of the .cpp files",
                         "Model/Aeadm.v, Model/Noncem.v mirror the C (differential run)"]
